@@ -37,8 +37,10 @@ def judge(ctx, pid, vectors, what="", exec_prop=None, reverse=False, **kw):
         rev = ctx.fresh("reversed") + ".ndjson"
         with open(vectors) as f:
             lines = f.readlines()
+        keep = kw.get("header", 0)       # shared context vectors (a domain) stay at the top: trace lines refer to them
         with open(rev, "w") as f:
-            f.writelines(reversed(lines))
+            f.writelines(lines[:keep])
+            f.writelines(reversed(lines[keep:]))
         trace = ctx.fresh("trace") + ".ndjson"
         hexec(ctx, exec_prop or pid, rev, trace)
         verdicts = validate(ctx, mod + ".tla", mod + ".cfg", trace, what=what + " (reverse order, fresh process)", **kw)
@@ -151,7 +153,7 @@ def c02(ctx):
     g1 = gen(ctx, "VersionGen.tla", "VersionGen_domain_%s.cfg" % t, ctx.path("dom.ndjson"), what="part-string domain")
     g2 = gen(ctx, "VersionGen.tla", "VersionGen_cmp_%s.cfg" % t, ctx.path("cmp.ndjson"), what="structured pairs (hyphens/colons inside upstream parts)")
     r = hgen(ctx, "C02", ctx.path("rand.ndjson"))
-    judge(ctx, "C02", vf.cat(ctx.path("vec.ndjson"), g1, g2, r), what="laws on logged signs, sort results", reverse=True)
+    judge(ctx, "C02", vf.cat(ctx.path("vec.ndjson"), g1, g2, r), what="laws on logged signs, sort results", reverse=True, header=1)
     ctx.assumptions += ["total preorder on the unbounded domain follows from the Key embedding only where the "
                         "embedding was checked (bounded domain) plus the per-triple checks on real signs"]
 
